@@ -302,7 +302,7 @@ int POOL_tryAdd(POOL_ctx* ctx, POOL_function function, void* opaque)
 {
     assert(ctx != NULL);
     ZSTD_pthread_mutex_lock(&ctx->queueMutex);
-    if (isQueueFull(ctx)) {
+    if (isQueueFull(ctx) || ctx->shutdown) {   /* a pool shutting down drops new jobs : report the refusal */
         ZSTD_pthread_mutex_unlock(&ctx->queueMutex);
         return 0;
     }
